@@ -254,7 +254,8 @@ class IfaceDesc:
 METHOD_NAMES = ['Fetch', 'Put', 'Frob', 'Echo', 'Sum', 'Ping', 'Quux']
 SIGNAL_NAMES = ['Changed', 'Tick', 'Alert']
 PROP_NAMES = ['Level', 'Name', 'Mode', 'Size']
-SIMPLE_SIGS = ['', 'i', 's', 'ii', 'as', 'u', 'b', 'd', '(is)', 'a{si}', 'v', 'ay', 'x', 'o', 'si', 't', 'n', 'q', 'y', 'g']
+SIMPLE_SIGS = ['', 'i', 's', 'ii', 'as', 'u', 'b', 'd', '(is)', 'a{si}', 'v', 'ay', 'x', 'o', 'si', 't', 'n', 'q', 'y', 'g',
+               'iiii', 'sisis', 'a{sv}', 'aas', '(i(ss))', 'a(ii)']
 PROP_SIGS = ['i', 's', 'u', 'b', 'd', 'y', 'n', 'q', 'x', 't', 'o', 'g', 'as', 'ai', '(is)', 'a{si}']
 
 
@@ -273,6 +274,9 @@ def interface(ds, name, nmeth=None, rich=True, props=True):
         d.methods.append((mn, si, so))
     for sn in SIGNAL_NAMES[:ds.choose(3)]:
         d.signals.append((sn, ds.pick(SIMPLE_SIGS[:8])))
+    if d.methods and ds.flag(0.2):
+        # a signal that shares its name with a method of the same interface
+        d.signals.append((d.methods[0][0], ds.pick(SIMPLE_SIGS[:8])))
     if props:
         for pn in PROP_NAMES[:ds.choose(4)]:
             d.props.append((pn, ds.pick(PROP_SIGS), ds.pick(['read', 'readwrite', 'write']),
